@@ -80,6 +80,14 @@ namespace bloch::runtime {
                              "qubit values cannot be reassigned");
         }
     }
+    // cos/sin of an infinite or NaN angle are NaN: the gate would turn every amplitude into NaN
+    // (and the emitted OpenQASM would read 'rx(inf) q[0];')
+    static void requireFiniteAngle(double theta, int line, int column) {
+        if (!std::isfinite(theta)) {
+            throw BlochError(ErrorCategory::Runtime, line, column,
+                             "rotation angle must be a finite number");
+        }
+    }
     static Value::Type declaredKind(Type* t) {
         if (auto prim = dynamic_cast<PrimitiveType*>(t)) {
             if (prim->name == "long")
@@ -3044,12 +3052,15 @@ namespace bloch::runtime {
                         m_sim.z(args[0].qubit);
                     } else if (name == "rx") {
                         ensureQubitActive(args[0].qubit, callExpr->line, callExpr->column);
+                        requireFiniteAngle(args[1].floatValue, callExpr->line, callExpr->column);
                         m_sim.rx(args[0].qubit, args[1].floatValue);
                     } else if (name == "ry") {
                         ensureQubitActive(args[0].qubit, callExpr->line, callExpr->column);
+                        requireFiniteAngle(args[1].floatValue, callExpr->line, callExpr->column);
                         m_sim.ry(args[0].qubit, args[1].floatValue);
                     } else if (name == "rz") {
                         ensureQubitActive(args[0].qubit, callExpr->line, callExpr->column);
+                        requireFiniteAngle(args[1].floatValue, callExpr->line, callExpr->column);
                         m_sim.rz(args[0].qubit, args[1].floatValue);
                     } else if (name == "cx") {
                         ensureQubitActive(args[0].qubit, callExpr->line, callExpr->column);
